@@ -481,11 +481,63 @@ def value_contracts(reg):
     return out
 
 
+# ============================================================ (b) symbolic shape ==
+def pptx_contracts(reg):
+    """_extract_table_from_graphic_frame on a graphic frame of SYMBOLIC shape: any number of rows, any number of cells per
+    row.  Grid spec over the tree vocabulary: rows = the a:tr children of the a:tbl, cells = the a:tc children of the row,
+    cell text = stripped paragraph text of the cell's a:txBody ('' without one)."""
+    from contracts import C13_bounded as Bm
+    Bm.install_str_models(reg)
+    reg.add(Bm.assumed_text(PPTX, "_extract_text_from_paragraphs", "elem"))
+    m = loader.module(PPTX)
+    TAGS = {k: z3.StringVal(m.literal("A_NS") + v) for k, v in (("gd", "graphicData"), ("tbl", "tbl"), ("tr", "tr"), ("tc", "tc"), ("body", "txBody"))}
+    URI = z3.StringVal(m.literal("TABLE_URI"))
+
+    def cell_text(tc):
+        return z3.If(ET.FA_N(tc, TAGS["body"]) > 0, Bm.mk_strip(Bm.PTEXT(ET.FA_AT(tc, TAGS["body"], z3.IntVal(0)))), z3.StringVal(""))
+
+    def row_spec(tr):
+        return VSeq(ET.FA_N(tr, TAGS["tc"]), lambda j, tr=tr: VStr(cell_text(ET.FA_AT(tr, TAGS["tc"], j))), "str")
+
+    def grid(tbl):
+        return VSeq(ET.FA_N(tbl, TAGS["tr"]), lambda i, tbl=tbl: row_spec(ET.FA_AT(tbl, TAGS["tr"], i)), "row")
+
+    def frame_parts(e):
+        gd = ET.D_AT(e, TAGS["gd"], z3.IntVal(0))
+        is_frame = z3.And(ET.D_N(e, TAGS["gd"]) > 0, ET.HAS_ATTR(gd, z3.StringVal("uri")), ET.ATTR(gd, z3.StringVal("uri")) == URI,
+                          ET.FA_N(gd, TAGS["tbl"]) > 0)
+        return is_frame, ET.FA_AT(gd, TAGS["tbl"], z3.IntVal(0))
+
+    def post(c):
+        is_frame, tbl = frame_parts(c.args["elem"].t)
+        if c.result is NONE:
+            return z3.Not(is_frame)
+        got = c.ex.as_seq(c.st, c.result)
+        if got is None:
+            return z3.BoolVal(False)
+        return z3.And(is_frame, seq_eq(got, grid(tbl)))
+
+    def inv_rows(lc):
+        return seq_eq(lc.ex.as_seq(lc.st, lc["table_data"]), take(grid(lc["tbl"].t), lc.i))
+
+    def inv_cells(lc):
+        return seq_eq(lc.ex.as_seq(lc.st, lc["row_data"]), take(row_spec(lc["tr"].t), lc.i))
+
+    return [FnContract(
+        target=f"{PPTX}::_extract_table_from_graphic_frame", params=[("elem", p_ext("Elem"))],
+        ensures=[("none-iff-not-a-table-frame-else-the-grid-of-direct-rows-and-cells", post)],
+        raises=[],
+        loops={0: LoopSpec(inv=inv_rows, havoc=(("table_data", ("list", ("list", "str"))),), label="rows"),
+               1: LoopSpec(inv=inv_cells, havoc=(("row_data", ("list", "str")),), label="cells")},
+        note="symbolic tree shape: every number of rows, every (ragged) number of cells per row")]
+
+
 def contracts(reg):
     ET.install(reg)
     out = []
     out += dim_contracts(reg)
     out += value_contracts(reg)
+    out += pptx_contracts(reg)
     return out
 
 
@@ -520,7 +572,7 @@ def model_invariants(repo, tier):
     return {"obligations": obls}
 
 
-EXTRA = [_walker_job(n) for n in ("w_docx", "w_odt", "w_odp", "w_pptx", "w_html", "w_epub", "w_xlsx", "w_xls", "w_ods")] + [model_invariants]
+EXTRA = [_walker_job(n) for n in ("w_docx", "w_odt", "w_odp", "w_pptx", "w_html", "w_epub", "w_xlsx", "w_xls", "w_ods", "w_iter")] + [model_invariants]
 
 
 def known_findings(kf, violations, repo, tier):
